@@ -156,8 +156,12 @@ def harmonic_set(a: PointTensor, b: PointTensor, c: PointTensor) -> PointTensor:
 
         l = join(a, b)
 
-    m = join(o, c)
-    p = o + 1 / 2 * m.direction
+    # second auxiliary point: any point of the line oc other than o and c (a fixed step along the direction of the
+    # normalized line oc can land exactly on c)
+    oa, ca = o.array, c.array
+    p = PointCollection.from_array(
+        oa / np.linalg.norm(oa, axis=-1, keepdims=True) + ca / np.linalg.norm(ca, axis=-1, keepdims=True)
+    )
     result = l.meet(join(meet(o.join(a), p.join(b)), meet(o.join(b), p.join(a))))
 
     if n > 3:
